@@ -425,7 +425,7 @@ def run(ctx):
     ctx.set("schedules", tot["schedules"])
     ctx.set("schedules_by_kind", {k[len("schedules_"):]: v for k, v in tot.items() if k.startswith("schedules_")})
     ctx.set("fresh_process_programs", nfresh)
-    ctx.set("programs", per)
+    ctx.set("program_table", per)
     ctx.set("evaluations", tot["schedules"] + 2 * nfresh)
     ctx.set("distinct_nontrivial", tot["schedules"])
     ctx.set("rule", "states = distinct store contents reached after any task execution; transitions = task executions; a schedule is a "
